@@ -1066,6 +1066,8 @@ def c17(ctx):
     rfc20 = b"#^`{|}~"
     locs += [b"a" + bytes([c]) + b"b" for c in rfc20] + [b'"' + bytes([c]) + b'"' for c in rfc20] + [b'"x".' + bytes([c]) for c in rfc20] + \
             [bytes([c]) for c in rfc20] + ["é".encode() + bytes([c]) for c in rfc20] + [b'"\\' + bytes([c]) + b'"' for c in rfc20]
+    # quoted strings over backslash, blanks, quote and a letter, exhaustively: quoted-pairs next to (folding) white space
+    locs += [b'"' + w + b'"' for w in gen.words([b"\\", b" ", b"\t", b"\r", b"\n", b'"', b"b"], 4 if ctx.tier == "quick" else 5, 1)]
     locs = list(dict.fromkeys(locs))
     doms = [d for d in dict.fromkeys(gen.domain_strings("quick", ctx.rng)[:: (6 if ctx.tier == "quick" else 1)]) if 0 not in d]
     mails = [e for e in dict.fromkeys(gen.email_strings("quick", ctx.rng)[:: (5 if ctx.tier == "quick" else 1)]) if 0 not in e]
